@@ -120,11 +120,16 @@ func c20SecondContent(file string, ver int, corrupt bool) string {
 
 func c20TopContent(name string, ver, disk int, hasInc bool, inc string, corrupt bool) string {
 	// the part after the marker renders differently under the set's TrimBlocks option
-	s := fmt.Sprintf("[%sv%d@%d:{{ setname }}]{%% if true %%}\nT{%% endif %%}", name, ver, disk)
+	// (g0 / g1: a global that only set 0 / only set 1 defines; cm: an exported macro, so that a
+	// context carrying the key "cm" is rejected before anything is rendered)
+	s := fmt.Sprintf("[%sv%d@%d:{{ setname }}{{ g0 }}{{ g1 }}]{%% if true %%}\nT{%% endif %%}", name, ver, disk)
+	const cm = "{% macro cm() export %}{% endmacro %}"
 	if hasInc && inc == "base.tpl" {
-		s = `{% extends "base.tpl" %}{% block b %}` + s + "{% endblock %}"
+		s = `{% extends "base.tpl" %}` + cm + `{% block b %}` + s + "{% endblock %}"
 	} else if hasInc {
-		s += `{% include "` + inc + `" %}`
+		s = cm + s + `{% include "` + inc + `" %}`
+	} else {
+		s = cm + s
 	}
 	if corrupt {
 		s += "{% if %}"
@@ -523,6 +528,7 @@ func (c20Checker) Run(tp *Tapes, opt RunOpt) *Outcome {
 		}
 		sets[i] = pongo2.NewSet(setName, l...)
 		sets[i].Globals["setname"] = fmt.Sprintf("S%d", i)
+		sets[i].Globals[fmt.Sprintf("g%d", i)] = fmt.Sprintf("G%d", i)
 		// distinguishing configuration per set (isolation oracle): a ban and an option
 		if err := sets[i].BanTag([]string{"lorem", "templatetag"}[i%2]); err != nil {
 			out.HarnessErr = "BanTag on a fresh set failed: " + err.Error()
@@ -864,7 +870,7 @@ func (c20Checker) Run(tp *Tapes, opt RunOpt) *Outcome {
 						incVer = g.Ver
 					}
 				}
-				exp := fmt.Sprintf("[%sv%d@%d:S%d]", sp.Names[op.Name], topVer, topDisk, cr.set)
+				exp := fmt.Sprintf("[%sv%d@%d:S%dG%d]", sp.Names[op.Name], topVer, topDisk, cr.set, cr.set)
 				if cr.set%2 == 0 {
 					exp += "T" // this set has TrimBlocks on
 				} else {
@@ -876,11 +882,15 @@ func (c20Checker) Run(tp *Tapes, opt RunOpt) *Outcome {
 					exp += fmt.Sprintf("(inc%dv%d)", op.Name, incVer)
 				}
 				nGets := len(w.Gets)
+				// two executions the engine rejects up front (invalid key, clash with an exported
+				// macro), then the real one: nothing of a set or of a rejected caller may stay behind
+				t.Execute(pongo2.Context{"bad-key": "v", "g0": "LEAK", "g1": "LEAK"})
+				t.Execute(pongo2.Context{"cm": "v", "g0": "LEAK", "g1": "LEAK"})
 				got, err := t.Execute(nil)
 				out.dig(got, errStr(err))
 				if err != nil || got != exp {
 					cls := "wrong_content"
-					if err == nil && strings.Contains(got, ":S") && !strings.Contains(got, fmt.Sprintf(":S%d]", cr.set)) {
+					if err == nil && strings.Contains(got, ":S") && !strings.Contains(got, fmt.Sprintf(":S%dG%d]", cr.set, cr.set)) {
 						cls = "cross_set_config"
 					}
 					out.addViolation(cls, "FromCache", fmt.Sprintf("template id %d renders %q (err %v), its compile fetched content rendering %q", id, got, err, exp), exp, got)
